@@ -417,8 +417,21 @@ V('v08.5', 'C08', 'F', 'C08.R4', 'stamp all submodels',
             submodel.status[t] = status"""))
 V('v08.6', 'C08', 'F', 'C08.R3', "linker's own check values omitted",
   (LINKERS, LT, """            check_values = {
-                '_': np.array([self.__dict__['_' + name][t] for name in self.check]),
+                self.name: np.array(
+                    [self.__dict__['_' + name][t] for name in self.check]
+                ),
             }""", """            check_values = {}"""))
+V('v08.6c', 'C08', 'F', 'C08.R3', "revert F34: linker's own check values under the literal key '_'",
+  (LINKERS, LT, """                self.name: np.array(""", """                '_': np.array("""))
+V('v08.18', 'C08', 'F', 'C08.R9', 'revert F35 (limits): the linker accepts min_iter > max_iter',
+  (LINKERS, LT, """        if min_iter > max_iter:
+            raise ValueError(
+                f'Value of `min_iter` ({min_iter}) '
+                f'cannot exceed value of `max_iter` ({max_iter})'
+            )
+""", ''))
+V('v08.18b', 'C08', 'F', 'C08.R9', 'revert F35 (feasibility): the linker serves a period that cannot accommodate the lags',
+  (LINKERS, LT, """        if t_position < self.lags or t_position > len(self.span) - 1 - self.leads:""", """        if False:"""))
 V('v08.6b', 'C08', 'F', 'C08.R3', 'all submodels checked, not the selection',
   (LINKERS, LT, """                if k in submodels:
                     check_values[k] = np.array(
@@ -793,6 +806,25 @@ V('v05.s1', 'C05', 'S', None, '.item() conversion', (CONT, 'VectorContainer._loc
 # C09
 # ---------------------------------------------------------------------------
 SA = 'VectorContainer.__setattr__'
+V('v09.10', 'C09', 'F', 'C09.R3', 'revert F29: (name, label) assignment does not check the name',
+  (CONT, 'VectorContainer.__setitem__', """            name, index = key
+
+            if name not in self.__dict__['index']:
+                raise KeyError(f"'{name}' not recognised as a variable name")
+""", """            name, index = key
+"""))
+V('v09.11', 'C09', 'F', 'C09.R3', 'revert F30: add_variable takes a storage slot that is in use',
+  (CONT, 'VectorContainer.add_variable', """        if '_' + name in self.__dict__:
+            raise DuplicateNameError(
+                f"'{name}' cannot be a variable name: "
+                f"'_{name}' is already in use as an attribute of the object"
+            )
+""", ''))
+V('v09.12', 'C09', 'F', 'C09.R4', 'revert F36: the strict guard catches the `values` property',
+  (CONT, 'VectorContainer.__setattr__', """        if isinstance(getattr(type(self), name, None), property):
+            super().__setattr__(name, value)
+            return
+""", ''))
 V('v09.1', 'C09', 'F', 'C09.R1', 'revert F3: no ndim test',
   (CONT, SA, """            if value_as_array.ndim != 1 or value_as_array.shape[0] != len(
                 self.__dict__['span']
@@ -923,8 +955,14 @@ V('v11.s3', 'C11', 'S', None, 'ALIASES read without copy but rebuilt before the 
 # C12
 # ---------------------------------------------------------------------------
 RX = 'VectorContainer.reindex'
-V('v12.1', 'C12', 'F', 'C12.R5', 'map consumed crossed', (CONT, RX, 'reindexed[name][new] = self[name][old]', 'reindexed[name][old] = self[name][new]'))
+V('v12.1', 'C12', 'F', 'C12.R5', 'map consumed crossed', (CONT, RX, 'reindexed[name][new] = old_values[old]', 'reindexed[name][old] = old_values[new]'))
+V('v12.1f', 'C12', 'F', 'C12.R5', 'revert F31: old values copied from the original (object series shared)', (CONT, RX, 'reindexed[name][new] = old_values[old]', 'reindexed[name][new] = self[name][old]'))
+V('v12.s5', 'C12', 'S', None, 'old values copied from the original, element by element deep-copied', (CONT, RX, 'reindexed[name][new] = old_values[old]', 'reindexed[name][new] = copy.deepcopy(self[name][old])'))
 V('v12.1b', 'C12', 'F', 'C12.R5', 'map built old -> new', (CONT, RX, 'positions[i] = self._locate_period_in_span(period)', 'positions[self._locate_period_in_span(period)] = i'))
+V('v12.9', 'C12', 'F', 'C12.R7', 'revert F37: the pandas reindex re-fills every variable on default arguments',
+  (XMODEL, 'PandasIndexFeaturesMixin.reindex', """            if fill_method is None and fill_values.get(name, fill_value) is None:
+                continue
+""", ''))
 V('v12.2', 'C12', 'F', 'C12.R2', 'integer default -1', (CONT, RX, "                    value = 0\n", "                    value = -1\n"))
 V('v12.2b', 'C12', 'F', 'C12.R2', 'bool fill not coerced', (CONT, RX, "                    value = bool(value)\n", "                    value = value\n"))
 V('v12.2c', 'C12', 'F', 'C12.R2', 'str default None', (CONT, RX, "                    value = ''\n", "                    value = 'None'\n"))
@@ -958,6 +996,10 @@ V('v12.7', 'C12', 'F', 'C12.R2', 'new arrays sized by the old span', (CONT, RX, 
 # ---------------------------------------------------------------------------
 EV = 'VectorContainer.eval'
 RI = 'VectorContainer._resolve_expression_indexes'
+V('v16.9', 'C16', 'F', 'C16.R7', 'revert F38: indexes without backticks are re-read with int()',
+  (CONT, 'VectorContainer._resolve_expression_indexes', """            if match.group(1) is None or '`' not in match.group(1):
+                return match.group(0)
+""", ''))
 V('v16.1', 'C16', 'F', 'C16.R1', 'shift fills the input in place', (FUNCS, 'shift', 'shifted = np.roll(x, shift=p)', 'shifted = x'))
 V('v16.1b', 'C16', 'F', 'C16.R1', 'diff refills the input', (FUNCS, 'diff', '        differenced = x - lag(x, d, fill_value=fill_value)\n        differenced[:d] = fill_value', '        differenced = x - lag(x, d, fill_value=fill_value)\n        x[:d] = fill_value'))
 V('v16.2', 'C16', 'F', 'C16.R2', 'lead shifts to the right', (FUNCS, 'lead', 'return shift(x, -p, fill_value=fill_value)', 'return shift(x, p, fill_value=fill_value)'))
@@ -1038,6 +1080,8 @@ V('v17.10', 'C17', 'F', 'C17.R1', 'reset forced on', (XMODEL, f'{TM}.solve_t_aft
 # C18
 # ---------------------------------------------------------------------------
 AM = 'AliasMixin'
+V('v18.9', 'C18', 'F', 'C18.R3', 'revert F32: add_variable under an alias name creates storage of its own',
+  (XCOMMON, 'AliasMixin.add_variable', "        super().add_variable(self._resolve_alias(name), *args, **kwargs)", "        super().add_variable(name, *args, **kwargs)"))
 V('v18.1', 'C18', 'F', 'C18.R1', '__setitem__ tuple path unresolved',
   (XCOMMON, f'{AM}.__setitem__', "key = tuple([self._resolve_alias(name)] + list(index))", "key = tuple([name] + list(index))"))
 V('v18.1b', 'C18', 'F', 'C18.R1', '__getattr__ unresolved', (XCOMMON, f'{AM}.__getattr__', 'return super().__getattr__(self._resolve_alias(name))', 'return super().__getattr__(name)'))
@@ -1058,6 +1102,13 @@ V('v18.5b', 'C18', 'F', 'C18.R5', 'export duplicates columns under their aliases
 # ---------------------------------------------------------------------------
 # C19
 # ---------------------------------------------------------------------------
+V('v19.9', 'C19', 'F', 'C19.R3', "revert F33: a submodel id may equal the linker's name",
+  (LINKERS, 'BaseLinker.__init__', """        if name in submodels:
+            raise InitialisationError(
+                f"Linker name '{name}' is also the identifier of a submodel: "
+                f'set a different `name` (or identifier)'
+            )
+""", ''))
 V('v19.1', 'C19', 'F', 'C19.R1', 'revert F8',
   (TOOLS, 'dataframe_to_symbols', """        for key in ('name', 'equation', 'code'):
             if not isinstance(entry[key], str):
